@@ -179,7 +179,7 @@ struct CliWorld : World {
                 gen_fault(r, a, faulty, false);
                 Op o; o.name = "gen"; o.a = a; pl.ops.push_back(o);
             } else if (c < 90) {
-                std::vector<int64_t> a = {(int64_t)r.below(4), (int64_t)(1 + r.below(7)), (int64_t)r.chance(1, 8)};
+                std::vector<int64_t> a = {(int64_t)r.below(4), (int64_t)(1 + r.below(7)) | (r.chance(1, 3) ? 8 : 0) | (r.chance(1, 5) ? 16 : 0), (int64_t)r.chance(1, 8)};
                 // asconsum reads through stdio: faults on SYS_FREAD / SYS_FOPEN
                 if (faulty && r.chance(1, 3)) a.insert(a.end(), {(int64_t)r.pickv({SYS_FREAD, SYS_FREAD, SYS_FOPEN}), 1 + (int64_t)r.below(4), (int64_t)r.pickv({FK_EIO, FK_SHORT}), 1 + (int64_t)r.below(30)});
                 else a.insert(a.end(), {0, 0, 0, 0});
@@ -710,11 +710,17 @@ struct CliWorld : World {
         std::vector<std::string> files = pick_files(c, op.arg(1));
         if (files.empty()) return;
         bool missing = op.arg(2) != 0;
+        bool from_stdin = (op.arg(1) & 16) != 0 && !missing;
         if (missing) files.push_back("no-such-file");
         std::vector<std::string> args = {"asconsum"};
         if (alg != 0 || (op.arg(1) & 8)) args.push_back(alg_flag(alg));
-        for (auto &f : files) args.push_back(f);
-        Result r = run_tool(c, 1, args, &op, 3, -1, 0);
+        int stdin_file = -1;
+        if (from_stdin) {
+            // no file arguments (or "-"): the tool hashes standard input and names it "-"
+            stdin_file = vfs_find(files[0].c_str());
+            if (op.arg(1) & 8) args.push_back("-");
+        } else for (auto &f : files) args.push_back(f);
+        Result r = run_tool(c, 1, args, &op, 3, stdin_file, 0);
         c.run->fold_u64((uint64_t)r.exit_code);
         c.run->fold_str(r.out);
         const std::string site = "asconsum.hash";
@@ -722,7 +728,12 @@ struct CliWorld : World {
         if (r.cap_hit) { viol(c, "liveness", site, "syscall cap exceeded"); return; }
         // expected lines for readable files
         std::string want;
-        for (auto &f : files) {
+        if (from_stdin) {
+            bool ex;
+            Bytes b = vfs_get(files[0], &ex);
+            want = digest_hex(alg, b) + "  -\n";
+            c.run->probe("sum.stdin");
+        } else for (auto &f : files) {
             bool ex;
             Bytes b = vfs_get(f, &ex);
             if (ex) want += digest_hex(alg, b) + "  " + f + "\n";
